@@ -84,6 +84,7 @@ func upgradeDumpBody(r *Run) {
 	ballots := Weighted(t, "ballots", []int{42, 12, 12, 16, 18})   // 0 as dumped, 1 absent, 2 empty list, 3 stale (height far in the past is impossible on a short chain: see below), 4 one ballot whose last vote lies 19..22 blocks before the update
 	const ballotAt = 8                                             // height recorded in the class-4 ballot
 	ballotAge := 19 + Pick(t, "ballotAge", 4)
+	ballotMix := Pick(t, "ballotMix", 3) // class 4: 0 that ballot alone, 1 a long-expired ballot of another decision after it, 2 before it
 	extraAcc := rapid.IntRange(0, 3).Draw(t, "extraAccounts")
 	var extraFirst [3]byte
 	for i := range extraFirst {
@@ -135,7 +136,19 @@ func upgradeDumpBody(r *Run) {
 				stackitem.NewArray([]stackitem.Item{stackitem.NewByteArray(DetKey("dump/voter").PublicKey().Bytes())}),
 				stackitem.Make(int64(ballotAt)),
 			})
-			raw, err := stackitem.Serialize(stackitem.NewArray([]stackitem.Item{b}))
+			stale := stackitem.NewStruct([]stackitem.Item{
+				stackitem.NewByteArray([]byte("verif-old-decision")),
+				stackitem.NewArray([]stackitem.Item{stackitem.NewByteArray(DetKey("dump/voter2").PublicKey().Bytes())}),
+				stackitem.Make(int64(1)),
+			})
+			list := []stackitem.Item{b}
+			switch ballotMix {
+			case 1:
+				list = []stackitem.Item{b, stale}
+			case 2:
+				list = []stackitem.Item{stale, b}
+			}
+			raw, err := stackitem.Serialize(stackitem.NewArray(list))
 			must(err)
 			out = append(out, KV{K: []byte("ballots"), V: raw})
 		}
